@@ -90,7 +90,7 @@ SITES_FOR = {
     "file_exists": ["fs.stat"], "file_info": ["fs.stat"],
     "list_dir": _M, "make_dir": _M, "which": _M,
     "execute": ["proc.run", "proc.run", "fs.open", "fs.write", "fs.close",
-                "console.write"],
+                "console.write", "out.write", "out.flush"],
     "run": ["fs.open", "fs.read", "fs.close"],
     "read_file": ["fs.open", "fs.read", "fs.close"],
 }
@@ -237,7 +237,7 @@ def gen_case(rng, tier, k):
             fn = rng.choice(["run", "read_file"])
             src = f"{fn}({q(p)})"
             name = fn
-        elif r < 0.985:
+        elif r < 0.975:
             src = rng.choice([
                 "which('tool')", "which('nope')",
                 f"which('tool', [{q('/sim/bin')}, {q(PATHS['missing'])}])",
@@ -246,8 +246,18 @@ def gen_case(rng, tier, k):
                 "get_env('HOME')", "get_env('NOPE')", "get_env(1)"])
             name = src.split("(")[0]
         else:
+            # the clock built-ins, also with arguments they do not declare
+            # today; pure date arithmetic and conversions (date(n),
+            # date - date, format_date ...) are C17 / the pure part of C13
+            # and are deliberately not exercised here
             src = rng.choice(["date()", "timestamp()", "now()",
-                              "string(date())", "date() < date()"])
+                              "string(date())", "date() < date()",
+                              "date() == now()", "type(timestamp())",
+                              "timestamp(date('00010101'))",
+                              "timestamp(date('99991231235959'))",
+                              "timestamp(0)", "timestamp(date())",
+                              "timestamp(NULL)", "now(1)",
+                              "timestamp('20200101')"])
             name = "clock"
         if not src.startswith(("def ", "for ", "do ")) and \
                 rng.random() < 0.25:
